@@ -303,6 +303,16 @@ def ufunc_edits(rec, seed, only=None):
         ]
     except Exception:
         rec.counters["valid-twin-raised"] += 1
+    # the numbers of axes per input exchanged between two inputs (the totals agree), with a function that broadcasts
+    sigw = "(p:center),(p:center,q:center)->(p:center)"
+    a2 = xr.DataArray(np.arange(6.0).reshape(3, 2), dims=["xc", "yc"])
+    try:
+        apply_as_grid_ufunc(lambda u, v: u + v.sum(-1), a1, a2, axis=[("X",), ("X", "Y")], grid=g, signature=sigw)
+        edits.append(("axis-counts-exchanged-between-inputs:reducing-function", lambda: apply_as_grid_ufunc(lambda u, v: u + v.sum(-1), a1, a2, axis=[("X", "Y"), ("X",)], grid=g, signature=sigw)))
+        edits.append(("axis-counts-exchanged-between-inputs", lambda: apply_as_grid_ufunc(np.add, a1, a2, axis=[("X", "Y"), ("X",)], grid=g, signature=sigw)))
+        edits.append(("axis-counts-exchanged-between-inputs:data-too", lambda: apply_as_grid_ufunc(np.add, a2, a1, axis=[("X", "Y"), ("X",)], grid=g, signature=sigw)))
+    except Exception:
+        rec.counters["valid-twin-raised"] += 1
     for ename, efn in edits:
         case = dict(kind="ufunc", edit=ename)
         if only is not None and only != case:
